@@ -2,15 +2,26 @@
 import verif as V
 
 PROP = "C05"
-SPEC = "Bng.Spec.C05"
+SPEC = ["Bng.Spec.C05", "Bng.Spec.C05Epoch", "Bng.Spec.C05FreeList"]
 MON = ["count", "total", "exhaustion", "lost"]
+# epoch (lease) allocator: Bng.LeaseSpec adds expiry/reclaimed to the pool monitor
+MON_EPOCH = ["count", "total", "exhaustion", "lost", "expiry", "reclaimed"]
 COMPS = [
+    V.Component("epoch", monitors=MON_EPOCH),
     V.Component("bitmap", monitors=MON),
+    # the five free-list pools (one generic Lean model, Bng.FreeList)
+    V.Component("dhcppool", monitors=MON),
+    V.Component("v6addr", harness="v6pool", monitors=MON, exec_env={"V6POOL_KIND": "addr"}),
+    V.Component("v6prefix", harness="v6pool", monitors=MON, exec_env={"V6POOL_KIND": "prefix"}),
+    V.Component("pppoepool", monitors=MON),
+    V.Component("localpool", monitors=MON),
 ]
 LEVEL = ("Counting, exhaustion-only-when-full and release-returns are theorems over the Lean pool models for ALL "
          "operation histories and geometries; the models are tied to the real Go code by differential execution, and "
          "the abstract pool monitor judges the real code's Stats()/exhaustion answers against the holdings it handed out.")
 ASSUME = [
+    "free-list pools: the network is what net.ParseCIDR returns; the universe of a pool is what its constructor generates (dhcpv6 pools: the first 1000 units by design); 'usable' excludes addresses MarkUnavailable took off the free list; keys are mapped injectively to numbers",
+    "epoch: expiry theorems assume byte(gracePeriod) <= 2 (finding D20 is the complement); Stats theorem assumes at least two slots (finding KF-epoch-tiny is the complement)",
     "each mutex-protected method is one atomic step; data races inside a critical section are not modelled",
     "bitmap theorems assume fewer than 2^64 units (GoodCfg); the complement is the recorded finding KF-bitmap-wide",
 ]
